@@ -349,6 +349,8 @@ def witnesses():
                                             page(3), (4, D([('Type', N('Pages')), ('Count', I(BIG)), ('Kids', A([]))]))])
     W['pages-count-alloc'] = doc_of([cat_pages(), (2, D([('Type', N('Pages')), ('Kids', A([REF(3), REF(4)]))])), page(3),
                                      (4, D([('Type', N('Pages')), ('Count', I(2 ** 45)), ('Kids', A([]))]))])
+    W['pages-count-zero'] = doc_of([cat_pages(), (2, D([('Type', N('Pages')), ('Kids', A([REF(5)]))])), page(3), page(4),
+                                    (5, D([('Type', N('Pages')), ('Count', I(0)), ('Kids', A([REF(3), REF(4)]))]))])
     ol = lambda item: [(1, D([('Type', N('Catalog')), ('Outlines', REF(2))])), (2, D([('First', REF(3))])), (3, item)]
     W['dest-empty'] = doc_of(ol(D([('Title', S(b'a')), ('Dest', A([]))])))
     W['dest-one'] = doc_of(ol(D([('Title', S(b'a')), ('Dest', A([I(1)]))])))
@@ -516,7 +518,7 @@ SPEC = {
             '34 keys the query code reads, stream, reference to a random / dangling / own id) and otherwise to its expected kind '
             'with references to random objects of the expected role (cycles through Parent, Kids, First, Next, Contents, '
             'Length, Count ...); chains of 5..300 links at every limit (dereference, Contents, Parent, First, Next, Kids, page '
-            'tree, direct nesting); outlines and name trees with shared sub-structures whose unfolding straddles the reference budget; well-formed documents; the 16 witnesses of the repaired defects; every query is called for '
+            'tree, direct nesting); outlines and name trees with shared sub-structures whose unfolding straddles the reference budget; well-formed documents; the 17 witnesses of the repaired defects; every query is called for '
             'every object id plus a dangling one; non-trivial = all; distinct = distinct case text',
     'extra_trusted': ['C13: worker isolation (child process per case, 4 s wall-clock per query group) decides hang/abort; '
                       'panic classes are read from the panic message',
